@@ -23,6 +23,7 @@ import (
 	"sync/atomic"
 
 	"github.com/mimiro-io/datahub/internal/server"
+	"github.com/mimiro-io/datahub/internal/service/types"
 	"github.com/mimiro-io/datahub/internal/verif/gen"
 	"github.com/mimiro-io/datahub/internal/verif/hub"
 	"github.com/mimiro-io/datahub/internal/verif/model"
@@ -150,11 +151,17 @@ func c13ContextRounds(ctx *Ctx, r *rand.Rand, rounds int) {
 		rw.Add(1)
 		go func(k int) {
 			defer rw.Done()
+			ba := server.NewBadgerAccess(core.Store, core.Dsm)
 			for atomic.LoadInt32(&stop) == 0 {
-				if k%2 == 0 {
+				switch k % 3 {
+				case 0:
 					_ = core.Store.GetGlobalContext(false)
-				} else {
+				case 1:
 					_ = core.Store.NamespaceManager.GetContext(nil)
+				default:
+					// the service layer's way of resolving prefixes and expansions (entity details, compaction)
+					_, _ = ba.LookupNamespaceExpansion(types.Prefix(fmt.Sprintf("ns%d", atomic.LoadInt64(&reads)%40)))
+					_, _ = ba.LookupExpansionPrefix(types.URI("http://rounds.example.org/none/"))
 				}
 				atomic.AddInt64(&reads, 1)
 			}
